@@ -1,6 +1,7 @@
 import BctVerif.Lemmas.RewireConnDir
 import BctVerif.Lemmas.RewireConnCost
 import BctVerif.Lemmas.RewireConnRun
+import BctVerif.Lemmas.RewireConnPre
 
 /-!
 # C11 — constrained rewiring honours connectivity, lattice cost and forbidden cells
@@ -19,11 +20,17 @@ matrix, strongly connected in general); `cost D R := Σ i j, D i j * R i j`.
   `latt_connected_und`, `latt_connected_dir` — also through the latticisers' node permutation;
 * `lattice_step_cost_dir`, `lattice_step_cost_und`, `runBudget_cost_noninc` — latticisation never
   increases `cost D` for the distance matrix in use (symmetric `D` for the undirected routines);
-* `mask_respected`, `runBudget_mask_respected` — a cell that becomes nonzero has `B = 0`.
+* `mask_respected`, `runBudget_mask_respected` — a cell that becomes nonzero has `B = 0`, for every
+  mask `B` (the acceptance test reads `B` in both orientations); `masked_cell_kept`,
+  `runBudget_masked_cells` — a cell with `B ≠ 0` keeps its value or becomes zero;
+* `precheck_rejects`, `precheck_ok`, `precheck_iff` — the input pre-check of `randmio_und_connected` /
+  `latmio_und_connected` (`Model/RewirePre.lean`, driver `Main/RewirePre.lean`) answers
+  `BCTParamError` exactly on asymmetric or disconnected input.
 
-Not modelled in Lean: the `BCTParamError` pre-checks of `randmio_und_connected` /
-`latmio_und_connected` (asymmetric or disconnected input); the Python check tests them on the real
-code.  The driver only ever sees inputs that passed them.
+Stated domain assumptions (restrictions of the property's quantifier, see notes/C11.md): all
+connectivity theorems assume an **empty diagonal** (BCT convention; the four-distinct-nodes test of
+the routines does not exclude `a = b` for a self-loop), and the undirected lattice-cost theorems
+assume a **symmetric `D`** (a distance-to-diagonal matrix is symmetric).
 -/
 open Relation
 
@@ -159,6 +166,59 @@ theorem latt_connected_dir (cfg : Cfg n) (R Rrp : AMat Int n) (p : Fin n → Fin
     (conn_permMat R p hp hconn) hrun
   intro v; unfold EmptyDiag at hd; rw [toFun_permMat]; exact hd _
 
+/-- the same with the permutation as the driver builds it from the recorded `rng.permutation(n)`
+(`listToPerm`; injective by `C01.listToPerm_injective`) -/
+theorem latt_connected_und_driver (cfg : Cfg n) (R Rrp : AMat Int n) (pl : List ℕ) (p : Fin n → Fin n)
+    (hpl : listToPerm n pl = some p) (itr eff : ℕ) (ds rest : List ℕ)
+    (hu : cfg.und = true) (hc : cfg.conn = true) (hsrc : cfg.src ≠ .all)
+    (hd : EmptyDiag R) (hs : Symm R) (hconn : Conn (adj R))
+    (hrun : runBudget cfg (permMat R p) itr ds = .ok (Rrp, eff, rest)) :
+    Conn (adj (permMat Rrp (invPerm p))) :=
+  latt_connected_und cfg R Rrp p (listToPerm_injective pl p hpl) itr eff ds rest hu hc hsrc hd hs hconn hrun
+
+theorem latt_connected_dir_driver (cfg : Cfg n) (R Rrp : AMat Int n) (pl : List ℕ) (p : Fin n → Fin n)
+    (hpl : listToPerm n pl = some p) (itr eff : ℕ) (ds rest : List ℕ)
+    (hu : cfg.und = false) (hc : cfg.conn = true)
+    (hd : EmptyDiag R) (hconn : Conn (adj R))
+    (hrun : runBudget cfg (permMat R p) itr ds = .ok (Rrp, eff, rest)) :
+    Conn (adj (permMat Rrp (invPerm p))) :=
+  latt_connected_dir cfg R Rrp p (listToPerm_injective pl p hpl) itr eff ds rest hu hc hd hconn hrun
+
+/-- what a successful whole latticiser call (`runLatt`, the function the driver's `step` runs) consists of -/
+theorem runLatt_ok (cfg : Cfg n) (R Rlatt Rrp : AMat Int n) (pl : List ℕ) (itr eff : ℕ) (ds rest : List ℕ)
+    (hrun : runLatt cfg R pl itr ds = .ok (Rlatt, Rrp, eff, rest)) :
+    ∃ p, listToPerm n pl = some p ∧ runBudget cfg (permMat R p) itr ds = .ok (Rrp, eff, rest) ∧
+      Rlatt = permMat Rrp (invPerm p) := by
+  unfold runLatt at hrun
+  cases hp : listToPerm n pl with
+  | none => simp [hp] at hrun
+  | some p =>
+    simp only [hp] at hrun
+    cases hr : runBudget cfg (permMat R p) itr ds with
+    | error e => simp [hr] at hrun
+    | ok v =>
+      obtain ⟨X, e, r⟩ := v
+      simp only [hr, Except.ok.injEq, Prod.mk.injEq] at hrun
+      obtain ⟨h1, h2, h3, h4⟩ := hrun
+      subst h2 h3 h4
+      exact ⟨p, rfl, hr, h1.symm⟩
+
+/-- `latmio_und_connected`, whole call: connected input ⇒ connected `Rlatt` (caller's numbering). -/
+theorem runLatt_connected_und (cfg : Cfg n) (R Rlatt Rrp : AMat Int n) (pl : List ℕ) (itr eff : ℕ) (ds rest : List ℕ)
+    (hu : cfg.und = true) (hc : cfg.conn = true) (hsrc : cfg.src ≠ .all)
+    (hd : EmptyDiag R) (hs : Symm R) (hconn : Conn (adj R))
+    (hrun : runLatt cfg R pl itr ds = .ok (Rlatt, Rrp, eff, rest)) : Conn (adj Rlatt) := by
+  obtain ⟨p, hp, hr, rfl⟩ := runLatt_ok cfg R Rlatt Rrp pl itr eff ds rest hrun
+  exact latt_connected_und_driver cfg R Rrp pl p hp itr eff ds rest hu hc hsrc hd hs hconn hr
+
+/-- `latmio_dir_connected`, whole call: strongly connected input ⇒ strongly connected `Rlatt`. -/
+theorem runLatt_connected_dir (cfg : Cfg n) (R Rlatt Rrp : AMat Int n) (pl : List ℕ) (itr eff : ℕ) (ds rest : List ℕ)
+    (hu : cfg.und = false) (hc : cfg.conn = true)
+    (hd : EmptyDiag R) (hconn : Conn (adj R))
+    (hrun : runLatt cfg R pl itr ds = .ok (Rlatt, Rrp, eff, rest)) : Conn (adj Rlatt) := by
+  obtain ⟨p, hp, hr, rfl⟩ := runLatt_ok cfg R Rlatt Rrp pl itr eff ds rest hrun
+  exact latt_connected_dir_driver cfg R Rrp pl p hp itr eff ds rest hu hc hd hconn hr
+
 /-! ### 3. lattice cost -/
 
 /-- **Lattice step, directed**: under the rewiring guard, the lattice condition
@@ -199,6 +259,18 @@ theorem runBudget_cost_noninc (cfg : Cfg n) (D R R' : AMat Int n) (itr eff : ℕ
     simp only [Bool.false_eq_true, if_false]
     exact latticeStep_dir D X a b c d hac hbd z1 z2 hl'
 
+/-- the four latticisers, whole call: `Σ D∘Rrp ≤ Σ D∘R[ix_(p,p)]` for the permutation `p` drawn by the
+call — exactly the two quantities the Python predicate compares. -/
+theorem runLatt_cost_noninc (cfg : Cfg n) (D R Rlatt Rrp : AMat Int n) (pl : List ℕ) (itr eff : ℕ) (ds rest : List ℕ)
+    (hl : cfg.lat = some D) (hD : cfg.und = true → Symm D)
+    (hd : EmptyDiag R) (hs : cfg.und = true → Symm R) (hsrc : cfg.und = true → cfg.src ≠ .all)
+    (hrun : runLatt cfg R pl itr ds = .ok (Rlatt, Rrp, eff, rest)) :
+    ∃ p, listToPerm n pl = some p ∧ cost D Rrp ≤ cost D (permMat R p) := by
+  obtain ⟨p, hp, hr, _⟩ := runLatt_ok cfg R Rlatt Rrp pl itr eff ds rest hrun
+  refine ⟨p, hp, runBudget_cost_noninc cfg D (permMat R p) Rrp itr eff ds rest hl hD ?_ ?_ hsrc hr⟩
+  · intro v; unfold EmptyDiag at hd; rw [toFun_permMat]; exact hd _
+  · intro hu i j; have := hs hu; unfold Symm at this; rw [toFun_permMat]; exact this _ _
+
 /-- the default distance-to-diagonal matrix is symmetric, so `runBudget_cost_noninc` applies to the
 undirected latticisers called without `D`, for every `n` -/
 theorem defaultD_symm (n : ℕ) : Symm (defaultD n) := by
@@ -210,26 +282,25 @@ theorem defaultD_symm (n : ℕ) : Symm (defaultD n) := by
 /-! ### 4. mask -/
 
 /-- **Mask, one accepted swap**: a cell that is nonzero after the swap and was zero before has
-`B = 0` (`B` symmetric for the undirected routine — `randomize_graph_partial_und`). -/
+`B = 0` — for every mask `B`, symmetric or not. -/
 theorem mask_respected (cfg : Cfg n) (B R R' : AMat Int n)
-    (hm : cfg.mask = some B) (hB : cfg.und = true → Symm B) (hs : cfg.und = true → Symm R)
+    (hm : cfg.mask = some B) (hs : cfg.und = true → Symm R)
     (st : SwapStep cfg R R') (i j : Fin n) (hnew : R'.toFun i j ≠ 0) (hold : R.toFun i j = 0) :
     B.toFun i j = 0 := by
   obtain ⟨a, b, c, d, hab, hac, had, hbc, hbd, hcd, _, _, hacc, rfl⟩ := st
   obtain ⟨⟨z1, z2⟩, hmask, _, _⟩ := accept_parts cfg R a b c d hacc
-  obtain ⟨m1, m2⟩ := hmask B hm
+  obtain ⟨m1, m2, m3, m4⟩ := hmask B hm
   cases hu : cfg.und with
   | true =>
     simp only [hu, if_true] at hnew
     have hsR := hs hu
-    have hsB := hB hu
     rw [toFun_swapUnd] at hnew
     rcases swapUnd_new_cells R.toFun a b c d hab hac had hbc hbd hcd z1 (by rw [hsR]; exact z1) z2
       (by rw [hsR]; exact z2) i j hnew hold with ⟨rfl, rfl⟩ | ⟨rfl, rfl⟩ | ⟨rfl, rfl⟩ | ⟨rfl, rfl⟩
     · exact m1
-    · rw [hsB]; exact m1
+    · exact m3
     · exact m2
-    · rw [hsB]; exact m2
+    · exact m4
   | false =>
     simp only [hu, Bool.false_eq_true, if_false] at hnew
     rw [toFun_swapDir] at hnew
@@ -239,9 +310,9 @@ theorem mask_respected (cfg : Cfg n) (B R R' : AMat Int n)
 
 /-- **Mask, whole run** (`randomize_graph_partial_und` = `attDen := none`, i.e. the `untilSwaps` loop;
 the statement holds for the budgeted loops as well): no connection is created in a cell where the
-mask is nonzero. -/
+mask is nonzero — for every mask. -/
 theorem runBudget_mask_respected (cfg : Cfg n) (B R R' : AMat Int n) (itr eff : ℕ) (ds rest : List ℕ)
-    (hm : cfg.mask = some B) (hB : cfg.und = true → Symm B)
+    (hm : cfg.mask = some B)
     (hd : EmptyDiag R) (hs : cfg.und = true → Symm R) (hsrc : cfg.und = true → cfg.src ≠ .all)
     (hrun : runBudget cfg R itr ds = .ok (R', eff, rest)) :
     ∀ i j, R'.toFun i j ≠ 0 → R.toFun i j = 0 → B.toFun i j = 0 := by
@@ -249,8 +320,76 @@ theorem runBudget_mask_respected (cfg : Cfg n) (B R R' : AMat Int n) (itr eff : 
     R R' itr eff ds rest hd hs hsrc ?_ (fun i j h1 h0 => absurd h0 h1) hrun
   intro X X' hsX _ st q i j hnew h0
   by_cases hX : X.toFun i j = 0
-  · exact mask_respected cfg B X X' hm hB hsX st i j hnew hX
+  · exact mask_respected cfg B X X' hm hsX st i j hnew hX
   · exact q i j hX h0
+
+/-- **Masked cells, one accepted swap**: a cell with `B ≠ 0` keeps its value or is set to zero — it is
+never written with a weight (so a connection removed from a masked cell is not re-created either). -/
+theorem masked_cell_kept (cfg : Cfg n) (B R R' : AMat Int n)
+    (hm : cfg.mask = some B) (hs : cfg.und = true → Symm R)
+    (st : SwapStep cfg R R') (i j : Fin n) (hB : B.toFun i j ≠ 0) :
+    R'.toFun i j = R.toFun i j ∨ R'.toFun i j = 0 := by
+  obtain ⟨a, b, c, d, hab, hac, had, hbc, hbd, hcd, _, _, hacc, rfl⟩ := st
+  obtain ⟨⟨z1, z2⟩, hmask, _, _⟩ := accept_parts cfg R a b c d hacc
+  obtain ⟨m1, m2, m3, m4⟩ := hmask B hm
+  cases hu : cfg.und with
+  | true =>
+    simp only [if_true]
+    have hsR := hs hu
+    rw [toFun_swapUnd]
+    rcases swapUnd_cell R.toFun a b c d hab hac had hbc hbd hcd z1 (by rw [hsR]; exact z1) z2
+      (by rw [hsR]; exact z2) i j with h | h | ⟨rfl, rfl⟩ | ⟨rfl, rfl⟩ | ⟨rfl, rfl⟩ | ⟨rfl, rfl⟩
+    · exact Or.inl h
+    · exact Or.inr h
+    · exact absurd m1 hB
+    · exact absurd m3 hB
+    · exact absurd m2 hB
+    · exact absurd m4 hB
+  | false =>
+    simp only [Bool.false_eq_true, if_false]
+    rw [toFun_swapDir]
+    rcases swapDir_cell R.toFun a b c d hac hbd z1 z2 i j with h | h | ⟨rfl, rfl⟩ | ⟨rfl, rfl⟩
+    · exact Or.inl h
+    · exact Or.inr h
+    · exact absurd m1 hB
+    · exact absurd m2 hB
+
+/-- **Masked cells, whole run**: every cell where the mask is nonzero holds its input value or zero in
+the output. -/
+theorem runBudget_masked_cells (cfg : Cfg n) (B R R' : AMat Int n) (itr eff : ℕ) (ds rest : List ℕ)
+    (hm : cfg.mask = some B)
+    (hd : EmptyDiag R) (hs : cfg.und = true → Symm R) (hsrc : cfg.und = true → cfg.src ≠ .all)
+    (hrun : runBudget cfg R itr ds = .ok (R', eff, rest)) :
+    ∀ i j, B.toFun i j ≠ 0 → R'.toFun i j = R.toFun i j ∨ R'.toFun i j = 0 := by
+  refine runBudget_preserves cfg (fun X => ∀ i j, B.toFun i j ≠ 0 → X.toFun i j = R.toFun i j ∨ X.toFun i j = 0)
+    R R' itr eff ds rest hd hs hsrc ?_ (fun i j _ => Or.inl rfl) hrun
+  intro X X' hsX _ st q i j hB
+  rcases masked_cell_kept cfg B X X' hm hsX st i j hB with h | h
+  · rw [h]; exact q i j hB
+  · exact Or.inr h
+
+/-! ### 5. rejection of malformed input (`randmio_und_connected`, `latmio_und_connected`) -/
+
+/-- **Rejection.**  Asymmetric or disconnected input makes the pre-check of the undirected
+`_connected` routines answer `BCTParamError` (any `n`, any integer matrix, any diagonal). -/
+theorem precheck_rejects (R : AMat Int n) (h : ¬ Symm R ∨ ¬ Conn (adj R)) :
+    RewirePre.precheck R = .error .param :=
+  precheck_rejects_core R h
+
+/-- Symmetric connected input passes the pre-check. -/
+theorem precheck_ok (R : AMat Int n) (hs : Symm R) (hconn : Conn (adj R)) :
+    RewirePre.precheck R = .ok () :=
+  precheck_ok_core R hs hconn
+
+/-- the pre-check is exactly "symmetric and connected" -/
+theorem precheck_iff (R : AMat Int n) : RewirePre.precheck R = .ok () ↔ Symm R ∧ Conn (adj R) := by
+  constructor
+  · intro h
+    by_contra hn
+    have : ¬ Symm R ∨ ¬ Conn (adj R) := by tauto
+    rw [precheck_rejects R this] at h
+    cases h
+  · rintro ⟨hs, hc⟩; exact precheck_ok R hs hc
 
 /-! ### non-vacuity: concrete inputs satisfying the hypotheses, tests answering both ways, runs that swap -/
 
@@ -353,10 +492,22 @@ example : (runBudget cfgLD (permMat exD fun i => (#v[2, 4, 1, 0, 3] : Vector (Fi
 def maskB : AMat Int 5 := AMat.ofFn fun i j =>
   if (i.val, j.val) ∈ [(0, 2), (2, 0), (1, 4), (4, 1)] then 1 else 0
 def cfgPM : Cfg 5 := { und := true, conn := false, lat := none, mask := some maskB, src := .triu1, attDen := none }
-example : Symm maskB := by unfold Symm; decide
 -- the mask guard answers both ways: 0–1,3–2 → 0–2 is forbidden; 1–2,4–3 → 1–3, 4–2 is allowed
 example : accept cfgPM ring5 0 1 3 2 = false ∧ accept { cfgPM with mask := none } ring5 0 1 3 2 = true ∧
     accept cfgPM ring5 1 2 4 3 = true := by decide
+/-- an asymmetric mask: only cell (3,0) is forbidden -/
+def mask30 : AMat Int 5 := AMat.ofFn fun i j => if i.val = 3 ∧ j.val = 0 then 1 else 0
+-- 0–4, 2–3 → 0–3, 2–4 would fill (0,3) *and* (3,0): refused although `B[0,3] = 0` (allowed without mask);
+-- the mirrored choice 3–2, 4–0 → 3–0, 4–2 is refused as well; 0–1, 3–2 → 0–2, 3–1 is allowed
+example : accept { cfgPM with mask := some mask30 } ring5 0 4 2 3 = false ∧
+    accept { cfgPM with mask := none } ring5 0 4 2 3 = true ∧
+    accept { cfgPM with mask := some mask30 } ring5 3 2 4 0 = false ∧
+    accept { cfgPM with mask := some mask30 } ring5 0 1 3 2 = true := by decide
+-- the pre-check: the ring passes; a ring with one direction of an edge missing and two disjoint edges are rejected
+example : RewirePre.precheck ring5 = .ok () ∧
+    RewirePre.precheck (ring5.set 0 1 0) = .error .param ∧
+    RewirePre.precheck (AMat.ofFn fun i j => if (i.val, j.val) ∈ [(0, 1), (1, 0), (2, 3), (3, 2)] then 1 else 0 : AMat Int 4)
+      = .error .param := by decide
 -- bct.randomize_graph_partial_und(ring5, maskB, 2, seed=53): two swaps
 example : (runBudget cfgPM ring5 2 [1, 3, 306117710749834, 4, 0, 4079479849701554]).toOption.map (fun r => r.2.1) = some 2 := by
   decide
